@@ -31,7 +31,7 @@ class Convert(Contract):
     secondary_stride = 3
     layer = 5
     uses = LOWER
-    props = {'code_eq_Q': ['C10'], 'format': ['C10', 'C02'], 'shape': ['C10'], 'source_unchanged': ['C10', 'C20'],
+    props = {'code_eq_Q': ['C10', 'C05', 'C03'], 'format': ['C10', 'C02'], 'shape': ['C10'], 'source_unchanged': ['C10', 'C20'],
              'flag_overflow': ['C04'], 'flag_underflow': ['C04'], 'in_range': ['C02'], 'separate_state': ['C20'],
              'no_exception': ['C10'], 'meta_n_int': ['C02'], 'meta_limits': ['C02'], 'meta_status_keys': ['C02', 'C04'],
              'others_unchanged': ['C10'], 'governing_config': ['C10'],
